@@ -48,7 +48,7 @@ TChain == /\ Ev.ev = "chain"
 
 (* C15: every const member of Api(d) is usable in a const item *)
 TConst == /\ Ev.ev = "constprobe"
-          /\ [m |-> Ev.item, const |-> TRUE] \in (Api(D(Ev)) \cup BuilderApi(D(Ev)))
+          /\ [m |-> Ev.item, const |-> TRUE] \in (Api(D(Ev)) \cup BuilderApi(D(Ev)) \cup EnumApi(D(Ev)))
           /\ Ev.compiles
 
 (* C18: the regime (no_std, deny(missing_docs), forbid(unsafe_code)) must not matter for a valid declaration;
